@@ -228,6 +228,7 @@ pub fn main(mode: Mode) -> i32 {
             };
             ctx.replay(&iso, &doc)
         }
+        Mode::Minimize(..) => 2,
         Mode::Run(tier) => {
             let mut ctx = Ctx::new("C06", &tier);
 
